@@ -29,7 +29,7 @@ RULE = ("random loop-free networks on rasters <= 56 cells (quick) / <= 340 (thor
         "zero weights. non-trivial = >= 2 valid cells, >= 1 confluence, path length >= 3 and >= 1 non-missing outlet; "
         "distinct = SHA-1 of (op, network, outlets, options, fields)")
 
-RES = [(3, -4), (4, -3), (3000, -4000), (4000, -3000)]
+RES = [(3, -4), (4, -3), (3000, -4000), (4000, -3000), (3, 4), (-4, -3), (-3, 4)]   # incl. south-up and west-east flipped grids
 
 
 # ----------------------------------------------------------------------------------------
